@@ -1236,6 +1236,9 @@ MUTANTS = [
     dict(id="C16.b-confirmed-victim-stays-in-the-policy", prop="C16", file=ST + "tiny_lfu/policy.rs",
          old="                self.lru.pop_least_recent(lru::Region::Probation).unwrap();", new="                ();",
          expect="C16.b/policy/forget-only-after-confirmation"),
+    dict(id="C09.h-in-memory-insert-into-existing-set-dropped", prop="C09", file=ST + "key_of_set_map/in_memory.rs",
+         old="        if let Some(set) = set {\n            set.insert_element(element);\n            return;", new="        if let Some(set) = set {\n            let _ = (set, element);\n            return;",
+         expect="C09.h/in-memory/insert-reaches-the-set-on-every-path"),
     # ------------------------------------------------------------------ C09.f (D5)
     dict(id="C09.f-D5-fold-heap-in-arbitrary-order", prop="C09", file=ST + "key_of_set_map/cache.rs",
          old="""        let mut ordered = log.iter().collect::<Vec<_>>();
